@@ -38,9 +38,39 @@ class UnitError(Exception):
 _bt = re.compile(r"`([^`]*)`")
 
 
+_NOT_LOCAL = {"self", "Self", "crate", "super", "true", "false", "as", "break", "const", "continue", "else", "enum", "extern", "fn", "for", "if",
+              "impl", "in", "let", "loop", "match", "mod", "move", "mut", "pub", "ref", "return", "static", "struct", "trait", "type", "unsafe",
+              "use", "where", "while", "async", "await", "dyn", "u8", "u16", "u32", "u64", "u128", "usize", "i8", "i16", "i32", "i64", "i128",
+              "isize", "bool", "char", "str", "f32", "f64", "Some", "None", "Ok", "Err"}
+
+
+def _local_like(toks, name):
+    """an identifier that is only ever used like a local variable or parameter in this token stream: never right after `.` or `::`
+    (field, method, path segment), never right before `(`, `!`, `::` or `<` (function, macro, path, generic type), lower-case"""
+    if name in _NOT_LOCAL or not (name[0].islower() or name[0] == "_"):
+        return False
+    for i, t in enumerate(toks):
+        if t.kind != "ident" or t.text != name:
+            continue
+        prev = toks[i - 1].text if i > 0 else ""
+        prev2 = toks[i - 2].text if i > 1 else ""
+        nxt = toks[i + 1].text if i + 1 < len(toks) else ""
+        nxt2 = toks[i + 2].text if i + 2 < len(toks) else ""
+        if prev == "." and prev2 != ".":          # `a.name` (but `..name` is a range bound)
+            return False
+        if prev == ":" and prev2 == ":":
+            return False
+        if nxt in ("(", "!"):
+            return False
+        if nxt == ":" and nxt2 == ":":
+            return False
+    return True
+
+
 def alpha_map(old, new):
-    """if `new` is `old` with identifiers consistently renamed (token streams otherwise identical), return {old_ident: new_ident} for
-    the identifiers that changed; {} if identical; None if the texts differ in any other way"""
+    """if `new` is `old` with LOCAL identifiers (variables, parameters) consistently renamed and the token streams otherwise
+    identical, return {old_ident: new_ident} for the identifiers that changed; {} if identical; None otherwise.  A changed
+    function, method, field, macro, type or path name is NOT a renaming (`min` -> `max` changes behaviour)."""
     a = sig(lex(old))
     b = sig(lex(new))
     if len(a) != len(b):
@@ -58,7 +88,11 @@ def alpha_map(old, new):
             return None
         fwd[x.text] = y.text
         bwd[y.text] = x.text
-    return {k: v for k, v in fwd.items() if k != v}
+    ren = {k: v for k, v in fwd.items() if k != v}
+    for k, v in ren.items():
+        if not _local_like(a, k) or not _local_like(b, v):
+            return None
+    return ren
 
 
 def rename_idents(text, ren):
